@@ -188,3 +188,27 @@ Theorem C11_accept_second_offer : forall (A : Type) (ops : app_ops A) (f : fdl) 
 Proof. exact accept_second_offer. Qed.
 Print Assumptions C11_accept_second_offer.
 
+
+(* ------------------------------------------------------------------------------------------ *)
+(* ORACLE SOUNDNESS, PARTIAL (Proofs/FdlOracleSound9.v, FdlOracleSound10.v, FdlOracleSoundAll.v; see
+   Properties/C01.v for model_transcript and the hypotheses): on a transcript of the model - ALL input histories,
+   any number of total applications that hand data telegrams to the PHY - the only rule of C11 that the monitors
+   can report is the liveness rule R11_supervision_never_ends; i.e. R11_accept_while_listening,
+   R11_accept_without_token, R11_accept_from_stranger, R11_offer_changes_ring_view, R11_retry_too_early,
+   R11_too_many_retries, R11_removed_too_early and R11_heard_but_supervising are never reported.
+   The proofs use: with builder-valid parameters the slot time covers the synchronisation pause, so a poll in
+   CheckTokenPass whose slot timer has run out transmits in that very poll (FdlOracleSound9.check_pass_no_wait) and
+   the monitor's count of transmissions to NS agrees with the attempt label of the code; the telegrams the
+   monitors see delivered are the ones the receive loops hand to handle_telegram, with the same is_last flags
+   (FdlOracleSound10.receive_all_delivered); the monitor's pending offer m_cand is the code's
+   new_previous_station.
+   NOT covered: R11_supervision_never_ends. *)
+From PB Require Import Params C05Proofs FdlOracle FdlOracleSound1 FdlOracleSound5 FdlOracleSoundAll.
+
+Theorem C11_oracle_sound_partial : forall (A : Type) (ops : app_ops A) (p : params),
+  apps_total A ops -> builder_valid p -> app_sends_data A ops ->
+  forall (apps : list A) (ins : list minput), ins_ok 0 ins ->
+  forall k r, In (k, r) (monitor p (length apps) (model_transcript A ops p apps ins)) -> rule_prop r = PC11 ->
+  r = R11_supervision_never_ends.
+Proof. exact c11_open. Qed.
+Print Assumptions C11_oracle_sound_partial.
